@@ -117,3 +117,401 @@ Section ZLaws.
   Corollary Z_snf_laws : snf_laws Z_dict.
   Proof. apply Zpre_snf_laws. Qed.
 End ZLaws.
+
+(* =====================================================================================
+   The generic EucRing::gcdx (yui/src/abst/euc_ring.rs), for every fuel
+   ===================================================================================== *)
+Section GenericGcdx.
+  Context {R : Type} (o : ring_ops R) (L : ring_laws o) (u : unit_ops R) (e : euc_ops R).
+  Add Ring RringG : (ring_theory_of_laws o L).
+  Local Notation "0" := (rzero o).
+  Local Notation "1" := (rone o).
+  Local Infix "+" := (radd o).
+  Local Infix "*" := (rmul o).
+  Local Notation "- x" := (rneg o x).
+
+  Hypothesis Hdivrem : forall a b, b <> 0 -> a = rdiv e a b * b + rrem e a b.
+  Hypothesis Hnu : forall a, exists vi, rnunit u a * vi = 1.
+
+  Definition dvd (d x : R) : Prop := exists a, x = a * d.
+
+  Lemma gz_true a : ris_zero o a = true <-> a = 0.
+  Proof. unfold ris_zero. apply (reqb_eq o L). Qed.
+  Lemma gz_false a : ris_zero o a = false <-> a <> 0.
+  Proof. unfold ris_zero. apply (reqb_false o L). Qed.
+
+  Lemma gcdx_loop_spec X Y fuel : forall x y s0 s1 t0 t1 d s t,
+    x = s0 * X + t0 * Y -> y = s1 * X + t1 * Y ->
+    (forall c, dvd c x -> dvd c y -> dvd c X /\ dvd c Y) ->
+    gcdx_loop o e fuel x y s0 s1 t0 t1 = Some (d, s, t) ->
+    d = s * X + t * Y /\ dvd d X /\ dvd d Y.
+  Proof.
+    induction fuel as [|f IH]; intros x y s0 s1 t0 t1 d s t Hx Hy HD H; cbn [gcdx_loop] in H; [discriminate|].
+    destruct (ris_zero o y) eqn:Z.
+    - apply gz_true in Z. injection H as <- <- <-. split; [exact Hx|].
+      apply HD; [exists 1; ring|exists 0; rewrite Z; ring].
+    - apply gz_false in Z. cbv zeta in H.
+      pose proof (Hdivrem x y Z) as E.
+      set (q := rdiv e x y) in *. set (r := rrem e x y) in *. clearbody q r.
+      assert (Hr : r = x + - (q * y)) by (rewrite E; ring).
+      apply IH in H; [exact H|exact Hy| |].
+      + unfold rsub. rewrite Hr, Hx, Hy. ring.
+      + intros c [a Ha] [b Hb]. apply HD; [|now exists a].
+        exists (q * a + b). rewrite E, Ha, Hb. ring.
+  Qed.
+
+  Theorem generic_gcdx_spec fuel x y d s t :
+    generic_gcdx o u e fuel x y = Some (d, s, t) ->
+    d = s * x + t * y /\ (exists a, x = a * d) /\ (exists b, y = b * d).
+  Proof.
+    unfold generic_gcdx.
+    destruct (ris_zero o x && ris_zero o y) eqn:Z0.
+    { apply andb_true_iff in Z0. destruct Z0 as [Zx Zy]. apply gz_true in Zx, Zy.
+      intros H. injection H as <- <- <-. split; [ring|]. split; exists 0; [rewrite Zx|rewrite Zy]; ring. }
+    destruct (divides o e x y) eqn:D1.
+    { unfold divides in D1. apply andb_true_iff in D1. destruct D1 as [Nx Ry].
+      apply negb_true_iff, gz_false in Nx. apply gz_true in Ry.
+      cbv zeta. intros H. injection H as <- <- <-.
+      destruct (Hnu x) as [vi Hvi]. pose proof (Hdivrem y x Nx) as E. rewrite Ry in E.
+      split; [ring|]. split.
+      - exists vi. transitivity (x * (rnunit u x * vi)); [rewrite Hvi|]; ring.
+      - exists (rdiv e y x * vi). rewrite E at 1.
+        transitivity (rdiv e y x * x * (rnunit u x * vi)); [rewrite Hvi|]; ring. }
+    destruct (divides o e y x) eqn:D2.
+    { unfold divides in D2. apply andb_true_iff in D2. destruct D2 as [Ny Rx].
+      apply negb_true_iff, gz_false in Ny. apply gz_true in Rx.
+      cbv zeta. intros H. injection H as <- <- <-.
+      destruct (Hnu y) as [vi Hvi]. pose proof (Hdivrem x y Ny) as E. rewrite Rx in E.
+      split; [ring|]. split.
+      - exists (rdiv e x y * vi). rewrite E at 1.
+        transitivity (rdiv e x y * y * (rnunit u y * vi)); [rewrite Hvi|]; ring.
+      - exists vi. transitivity (y * (rnunit u y * vi)); [rewrite Hvi|]; ring. }
+    destruct (gcdx_loop o e (fuel x y) x y 1 0 0 1) as [[[d0 s0] t0]|] eqn:G; [|discriminate].
+    apply (gcdx_loop_spec x y) in G; [|ring|ring|tauto].
+    destruct G as (G1 & [a Ha] & [b Hb]). cbv zeta.
+    destruct (ris_one o (rnunit u d0)); intros H; injection H as <- <- <-.
+    - split; [exact G1|]. split; [now exists a|now exists b].
+    - destruct (Hnu d0) as [vi Hvi]. split; [rewrite G1; ring|]. split.
+      + exists (a * vi). rewrite Ha at 1.
+        transitivity (a * d0 * (rnunit u d0 * vi)); [rewrite Hvi|]; ring.
+      + exists (b * vi). rewrite Hb at 1.
+        transitivity (b * d0 * (rnunit u d0 * vi)); [rewrite Hvi|]; ring.
+  Qed.
+End GenericGcdx.
+
+(* =====================================================================================
+   Fields
+   ===================================================================================== *)
+Section FieldLaws.
+  Context {F : Type} (o : ring_ops F) (finv : F -> F) (L : ring_laws o).
+  Add Ring RringF : (ring_theory_of_laws o L).
+  Local Notation "0" := (rzero o).
+  Local Notation "1" := (rone o).
+  Local Infix "+" := (radd o).
+  Local Infix "*" := (rmul o).
+  Hypothesis one_neq_zero : 1 <> 0.
+  Hypothesis finv_r : forall a, a <> 0 -> a * finv a = 1.
+
+  Lemma field_integral : integral o.
+  Proof.
+    split; [exact one_neq_zero|]. intros a b H.
+    destruct (reqb_spec o L a 0) as [E|E]; [now left|right].
+    transitivity (finv a * a * b); [rewrite (rmul_comm o L (finv a) a), (finv_r a E); ring|].
+    transitivity (finv a * (a * b)); [ring|]. rewrite H. ring.
+  Qed.
+
+  Lemma finv_neq_0 a : a <> 0 -> finv a <> 0.
+  Proof. intros Ha E. apply one_neq_zero. rewrite <- (finv_r a Ha), E. ring. Qed.
+
+  Lemma finv_one : finv 1 = 1.
+  Proof. transitivity (1 * finv 1); [ring|]. now apply finv_r. Qed.
+
+  Lemma fz_true a : ris_zero o a = true <-> a = 0.
+  Proof. unfold ris_zero. apply (reqb_eq o L). Qed.
+  Lemma fz_false a : ris_zero o a = false <-> a <> 0.
+  Proof. unfold ris_zero. apply (reqb_false o L). Qed.
+
+  Theorem field_snf_laws : snf_laws (field_dict o finv).
+  Proof.
+    constructor; cbn [field_dict ed_ring ed_unit ed_euc ed_gcdx field_units field_euc rinv rnunit rdiv rrem].
+    - exact L.
+    - exact field_integral.
+    - intros a b. destruct (ris_zero o a) eqn:Z; [discriminate|]. apply fz_false in Z.
+      intros H. injection H as <-. now apply finv_r.
+    - intros a. destruct (ris_zero o a) eqn:Z.
+      + destruct (ris_zero o 1) eqn:Z1; [apply fz_true in Z1; contradiction|]. eexists; reflexivity.
+      + apply fz_false in Z. destruct (ris_zero o (finv a)) eqn:Z1; [|eexists; reflexivity].
+        apply fz_true in Z1. exfalso. now apply (finv_neq_0 a).
+    - intros a. destruct (ris_zero o a) eqn:Z.
+      + apply fz_true in Z. subst a. replace (0 * 1) with 0 by ring.
+        destruct (ris_zero o 0) eqn:Z1; [reflexivity|]. apply fz_false in Z1. contradiction.
+      + apply fz_false in Z. rewrite (finv_r a Z).
+        destruct (ris_zero o 1) eqn:Z1; [reflexivity|]. apply finv_one.
+    - intros a d Hd. transitivity (a * (d * finv d)); [ring|]. rewrite (finv_r d Hd). ring.
+    - intros a b Hb _. exists (a * finv b). transitivity (a * (b * finv b)); [rewrite (finv_r b Hb)|]; ring.
+    - intros x y d s t H. apply (generic_gcdx_spec o L) in H; [exact H| |].
+      + intros a b Hb. cbn [field_euc rdiv rrem].
+        transitivity (a * (b * finv b)); [rewrite (finv_r b Hb)|]; ring.
+      + intros a. cbn [field_units rnunit]. destruct (ris_zero o a) eqn:Z.
+        * exists 1. ring.
+        * apply fz_false in Z. exists a. rewrite (rmul_comm o L). now apply finv_r.
+  Qed.
+End FieldLaws.
+
+(* ---------- Q ---------- *)
+Lemma Q_ring_laws : ring_laws Q_ring.
+Proof.
+  constructor; cbn [Q_ring radd rneg rmul rzero rone reqb]; intros.
+  - apply Qcplus_comm.
+  - apply Qcplus_assoc.
+  - apply Qcplus_0_l.
+  - apply Qcplus_opp_r.
+  - apply Qcmult_comm.
+  - apply Qcmult_assoc.
+  - apply Qcmult_1_l.
+  - apply Qcmult_plus_distr_l.
+  - split; [apply Qc_eq_bool_correct|]. intros ->. unfold Qc_eq_bool. now destruct (Qc_eq_dec b b).
+Qed.
+
+Theorem Q_snf_laws : snf_laws Q_dict.
+Proof.
+  apply (field_snf_laws Q_ring Qcinv Q_ring_laws).
+  - cbn. intros H. apply (f_equal this) in H. discriminate H.
+  - intros a Ha. cbn. now apply Qcmult_inv_r.
+Qed.
+
+(* ---------- F_2 ---------- *)
+Lemma F2_ring_laws : ring_laws F2_ring.
+Proof.
+  constructor; cbn [F2_ring radd rneg rmul rzero rone reqb];
+    try (intros; repeat match goal with b : bool |- _ => destruct b end; reflexivity).
+  intros a b. destruct a, b; cbn; split; congruence.
+Qed.
+
+Theorem F2_snf_laws : snf_laws F2_dict.
+Proof.
+  apply (field_snf_laws F2_ring (fun a => a) F2_ring_laws).
+  - discriminate.
+  - intros a Ha. destruct a; [reflexivity|]. exfalso. now apply Ha.
+Qed.
+
+(* =====================================================================================
+   Quadratic integers Z[omega], omega^2 = t*omega + e :  Z[i] (0, -1) and Z[omega] (1, -1)
+   ===================================================================================== *)
+Section QuadLaws.
+  Open Scope Z_scope.
+  Variables t e : Z.
+  Variable eisen : bool.
+  Local Notation qmul := (q_mul t e).
+  Local Notation qring := (q_ring t e).
+
+  Lemma quad_eq (x y : quad) : fst x = fst y -> snd x = snd y -> x = y.
+  Proof. destruct x, y; cbn; intros -> ->; reflexivity. Qed.
+
+  Lemma q_ring_laws : ring_laws qring.
+  Proof.
+    constructor; cbn [q_ring radd rneg rmul rzero rone reqb];
+      try (intros; apply quad_eq; unfold q_add, q_neg, q_mul; cbn [fst snd]; ring).
+    intros a b. unfold q_eqb. rewrite andb_true_iff, !Z.eqb_eq. split.
+    - intros [H1 H2]. now apply quad_eq.
+    - intros ->. split; reflexivity.
+  Qed.
+
+  Lemma q_norm_mul x y : q_norm t e (qmul x y) = q_norm t e x * q_norm t e y.
+  Proof. unfold q_norm, q_mul. cbn [fst snd]. ring. Qed.
+
+  Lemma q_mul_conj x : qmul x (q_conj t x) = (q_norm t e x, 0).
+  Proof. apply quad_eq; unfold q_mul, q_conj, q_norm; cbn [fst snd]; ring. Qed.
+
+  Hypothesis norm_zero : forall x, q_norm t e x = 0 -> x = (0, 0).
+
+  Lemma q_integral : integral qring.
+  Proof.
+    split; [cbn; discriminate|]. cbn [q_ring rmul rzero]. intros a b H.
+    assert (N : q_norm t e a * q_norm t e b = 0).
+    { rewrite <- q_norm_mul, H. unfold q_norm. cbn. ring. }
+    apply Z.mul_eq_0 in N. destruct N as [N|N]; [left|right]; now apply norm_zero.
+  Qed.
+
+  Lemma q_inv_spec a b : q_inv t e a = Some b -> qmul a b = (1, 0).
+  Proof.
+    unfold q_inv. destruct (Z_is_unit (q_norm t e a)) eqn:U; [|discriminate].
+    intros H. injection H as <-. apply Z_is_unit_iff in U.
+    transitivity (qmul (q_norm t e a, 0) (qmul a (q_conj t a))).
+    { apply quad_eq; unfold q_mul; cbn [fst snd]; ring. }
+    rewrite q_mul_conj. apply quad_eq; unfold q_mul; cbn [fst snd]; destruct U as [-> | ->]; ring.
+  Qed.
+
+  Lemma Z_div_round_mul k nm : nm <> 0 -> Z_div_round (k * nm) nm = k.
+  Proof.
+    intros H. unfold Z_div_round. rewrite Z.rem_mul by exact H. cbn [Z.eqb]. now apply Z.quot_mul.
+  Qed.
+
+  Lemma q_div_exact a d : d <> (0, 0) -> q_div t e eisen (qmul a d) d = a.
+  Proof.
+    intros Hd. unfold q_div.
+    assert (Hn : q_norm t e d <> 0) by (intros E; now apply Hd, norm_zero).
+    assert (W : qmul (qmul a d) (q_conj t d) = (fst a * q_norm t e d, snd a * q_norm t e d)).
+    { transitivity (qmul a (qmul d (q_conj t d))).
+      - apply quad_eq; unfold q_mul; cbn [fst snd]; ring.
+      - rewrite q_mul_conj. apply quad_eq; unfold q_mul; cbn [fst snd]; ring. }
+    rewrite W. cbn [fst snd]. destruct eisen.
+    - replace (fst a * q_norm t e d + snd a * q_norm t e d) with ((fst a + snd a) * q_norm t e d) by ring.
+      rewrite !Z_div_round_mul by exact Hn. apply quad_eq; cbn [fst snd]; ring.
+    - rewrite !Z_div_round_mul by exact Hn. now destruct a.
+  Qed.
+End QuadLaws.
+
+Section QuadInst.
+  Open Scope Z_scope.
+
+  Lemma gauss_norm_zero x : q_norm 0 (-1) x = 0 -> x = (0, 0).
+  Proof. destruct x as [a b]. unfold q_norm. cbn [fst snd]. intros H. f_equal; nia. Qed.
+
+  Lemma eisen_norm_zero x : q_norm 1 (-1) x = 0 -> x = (0, 0).
+  Proof. destruct x as [a b]. unfold q_norm. cbn [fst snd]. intros H. f_equal; nia. Qed.
+
+  Ltac ltb_cases :=
+    repeat (match goal with |- context [Z.ltb ?x ?y] => destruct (Z.ltb_spec x y) end; cbn [andb negb]).
+
+  (* a normalised element (or zero) has normalizing unit 1 *)
+  Lemma gauss_nunit_sector y : (0 < fst y /\ 0 <= snd y) \/ y = (0, 0) -> q_nunit false y = (1, 0).
+  Proof.
+    destruct y as [a b]. cbn [fst snd]. intros [[H1 H2]|E]; [|injection E as -> ->; reflexivity].
+    unfold q_nunit. cbn [fst snd]. ltb_cases; try reflexivity; lia.
+  Qed.
+  Lemma eisen_nunit_sector y : (0 < fst y /\ 0 <= snd y) \/ y = (0, 0) -> q_nunit true y = (1, 0).
+  Proof.
+    destruct y as [a b]. cbn [fst snd]. intros [[H1 H2]|E]; [|injection E as -> ->; reflexivity].
+    unfold q_nunit. cbn [fst snd]. ltb_cases; try reflexivity; lia.
+  Qed.
+
+  Lemma gauss_nunit_idem a : q_nunit false (q_mul 0 (-1) a (q_nunit false a)) = (1, 0).
+  Proof.
+    apply gauss_nunit_sector. destruct a as [x y]. unfold q_nunit. cbn [fst snd].
+    ltb_cases; unfold q_mul; cbn [fst snd];
+      first [left; split; lia | right; f_equal; lia].
+  Qed.
+  Lemma eisen_nunit_idem a : q_nunit true (q_mul 1 (-1) a (q_nunit true a)) = (1, 0).
+  Proof.
+    apply eisen_nunit_sector. destruct a as [x y]. unfold q_nunit. cbn [fst snd].
+    ltb_cases; unfold q_mul; cbn [fst snd];
+      first [left; split; lia | right; f_equal; lia].
+  Qed.
+
+  Lemma gauss_nunit_inv a : exists v, q_inv 0 (-1) (q_nunit false a) = Some v.
+  Proof.
+    destruct a as [x y]. unfold q_nunit. cbn [fst snd]. ltb_cases; eexists; vm_compute; reflexivity.
+  Qed.
+  Lemma eisen_nunit_inv a : exists v, q_inv 1 (-1) (q_nunit true a) = Some v.
+  Proof.
+    destruct a as [x y]. unfold q_nunit. cbn [fst snd]. ltb_cases; eexists; vm_compute; reflexivity.
+  Qed.
+
+  Lemma quad_snf_laws t e eisen pre :
+    (forall x, q_norm t e x = 0 -> x = (0, 0)) ->
+    (forall a, exists v, q_inv t e (q_nunit eisen a) = Some v) ->
+    (forall a, q_nunit eisen (q_mul t e a (q_nunit eisen a)) = (1, 0)) ->
+    snf_laws (quad_dict t e eisen pre).
+  Proof.
+    intros Hnz Hninv Hidem.
+    pose proof (q_ring_laws t e) as L.
+    assert (Hdr : forall a b : quad, b <> rzero (q_ring t e) ->
+              a = radd (q_ring t e) (rmul (q_ring t e) (q_div t e eisen a b) b) (q_rem t e eisen a b)).
+    { intros a b _. unfold q_rem. cbn [q_ring radd rmul].
+      apply quad_eq; unfold q_add, q_neg, q_mul; cbn [fst snd]; ring. }
+    constructor; cbn [quad_dict ed_ring ed_unit ed_euc ed_gcdx q_units q_euc rinv rnunit rdiv rrem].
+    - exact L.
+    - now apply q_integral.
+    - intros a b H. now apply q_inv_spec.
+    - exact Hninv.
+    - exact Hidem.
+    - intros a d Hd. now apply q_div_exact.
+    - intros a b Hb H. exists (q_div t e eisen a b). unfold q_rem in H. cbn [q_ring rmul rzero] in *.
+      injection H as H1 H2. unfold q_mul, q_neg in *. cbn [fst snd] in *.
+      apply quad_eq; unfold q_mul; cbn [fst snd]; lia.
+    - intros x y d s t0 H. apply (generic_gcdx_spec (q_ring t e) L) in H; [exact H|exact Hdr|].
+      intros a. cbn [q_units rnunit]. destruct (Hninv a) as [v Hv]. exists v.
+      apply q_inv_spec in Hv. exact Hv.
+  Qed.
+
+  Theorem gauss_snf_laws pre : snf_laws (gausspre_dict pre).
+  Proof.
+    apply quad_snf_laws; [exact gauss_norm_zero|exact gauss_nunit_inv|exact gauss_nunit_idem].
+  Qed.
+
+  Theorem eisen_snf_laws pre : snf_laws (eisenpre_dict pre).
+  Proof.
+    apply quad_snf_laws; [exact eisen_norm_zero|exact eisen_nunit_inv|exact eisen_nunit_idem].
+  Qed.
+End QuadInst.
+
+(* =====================================================================================
+   F_p = FF<p>, p prime
+   ===================================================================================== *)
+Section FpLaws.
+  Open Scope Z_scope.
+  Variable p : Z.
+  Hypothesis Hp : Znumtheory.prime p.
+
+  Lemma p_gt_1 : 1 < p.
+  Proof. now destruct Hp. Qed.
+
+  Lemma fp_eq (a b : fp p) : fp_val a = fp_val b -> a = b.
+  Proof.
+    destruct a as [va ca], b as [vb cb]. cbn [fp_val]. intros E. subst vb.
+    f_equal. apply Eqdep_dec.UIP_dec. apply Z.eq_dec.
+  Qed.
+
+  Lemma fp_val_mk x : fp_val (fp_mk p x) = x mod p.
+  Proof. reflexivity. Qed.
+
+  Lemma fp_val_mod (a : fp p) : fp_val a mod p = fp_val a.
+  Proof. now destruct a. Qed.
+
+  Lemma fp_val_bound (a : fp p) : 0 <= fp_val a < p.
+  Proof. rewrite <- fp_val_mod. apply Z.mod_pos_bound. pose proof p_gt_1. lia. Qed.
+
+  Lemma fp_ring_laws : ring_laws (fp_ring p).
+  Proof.
+    pose proof p_gt_1 as P1.
+    constructor; cbn [fp_ring radd rneg rmul rzero rone reqb]; intros.
+    - apply fp_eq. rewrite !fp_val_mk. f_equal. ring.
+    - apply fp_eq. rewrite !fp_val_mk. rewrite Zplus_mod_idemp_r, Zplus_mod_idemp_l. f_equal. ring.
+    - apply fp_eq. rewrite !fp_val_mk. rewrite Zmod_0_l. cbn [Z.add]. apply fp_val_mod.
+    - apply fp_eq. rewrite !fp_val_mk. rewrite Zplus_mod_idemp_r. f_equal. ring.
+    - apply fp_eq. rewrite !fp_val_mk. f_equal. ring.
+    - apply fp_eq. rewrite !fp_val_mk. rewrite Zmult_mod_idemp_r, Zmult_mod_idemp_l. f_equal. ring.
+    - apply fp_eq. rewrite !fp_val_mk. rewrite Zmult_mod_idemp_l. rewrite Z.mul_1_l. apply fp_val_mod.
+    - apply fp_eq. rewrite !fp_val_mk. rewrite Zmult_mod_idemp_l.
+      rewrite <- Zplus_mod. f_equal. ring.
+    - rewrite Z.eqb_eq. split; [apply fp_eq|now intros ->].
+  Qed.
+
+  Lemma fp_one_neq_zero : rone (fp_ring p) <> rzero (fp_ring p).
+  Proof.
+    pose proof p_gt_1 as P1. cbn. intros H. apply (f_equal fp_val) in H. rewrite !fp_val_mk in H.
+    rewrite Zmod_0_l, Z.mod_1_l in H by lia. discriminate.
+  Qed.
+
+  Lemma fp_inv_r (a : fp p) : a <> rzero (fp_ring p) -> rmul (fp_ring p) a (fp_inv p a) = rone (fp_ring p).
+  Proof.
+    pose proof p_gt_1 as P1. intros Ha. cbn [fp_ring rmul rone]. unfold fp_inv.
+    destruct (Z_gcdx_total (fp_val a) p) as [[[g x] y] G]. rewrite G.
+    apply Z_gcdx_spec in G. destruct G as (Hb & Hda & Hdp & Hg).
+    pose proof (fp_val_bound a) as Ba.
+    assert (Hva : fp_val a <> 0).
+    { intros E. apply Ha. apply fp_eq. cbn [fp_ring rzero]. rewrite fp_val_mk, Zmod_0_l. exact E. }
+    assert (Hg1 : g = 1).
+    { destruct (Znumtheory.prime_divisors p Hp g Hdp) as [E|[E|[E|E]]]; try lia.
+      subst g. exfalso. apply Z.divide_pos_le in Hda; lia. }
+    apply fp_eq. rewrite !fp_val_mk. rewrite Zmult_mod_idemp_r.
+    replace (fp_val a * x) with (1 + (- y) * p) by lia.
+    now rewrite Z_mod_plus_full.
+  Qed.
+
+  Theorem fp_snf_laws : snf_laws (fp_dict p).
+  Proof.
+    apply (field_snf_laws (fp_ring p) (fp_inv p) fp_ring_laws fp_one_neq_zero fp_inv_r).
+  Qed.
+End FpLaws.
